@@ -115,14 +115,21 @@ def build_jobs(ctx, sc, exe, thorough, want_class=("ws",)):
     # every spacing option singly at `remove` (only the fusion guard keeps the tokens apart then), rotating over the generated programs:
     # a run with one option isolates that option's rule, so a known fusion elsewhere cannot mask it
     gen_jobs = [j for j in jobs if j.name.endswith(".0")]
-    with_pp = [j for j in gen_jobs if "#define N " in j.meta["text"] and "#define MAX(" in j.meta["text"]] or gen_jobs
+    # the second program of an option starts with a fixed set of directives (rules about macros, includes, conditionals)
+    prelude = ("#include <stdio.h>\n#define N 10\n#define S \"s\"\n#define CH 'c'\n#define NEG -1\n#define PAREN (1)\n#define EMPTY\n"
+               "#define MAX(a, b) ((a) > (b) ? (a) : (b))\n#define u \"x\"\n#define L 'y'\n#if defined(N) && N > 1\n# define DEEP 0x1F\n#else\n"
+               "#define DEEP .5\n#endif /* N */\n#pragma once\n")
+    with_pp = {}
     for n, o in enumerate(sp):
         for r in range(3 if thorough else 2):
-            # the second program of an option always holds object-like and function-like macros (rules about directives)
-            j0 = gen_jobs[(n * 7 + r * 13) % len(gen_jobs)] if r != 1 else with_pp[n % len(with_pp)]
+            j0 = gen_jobs[(n * 7 + r * 13) % len(gen_jobs)]
+            inp, txt = j0.inp, j0.meta["text"]
+            if r == 1 and j0.lang != "JAVA":
+                if j0.inp not in with_pp:
+                    with_pp[j0.inp] = sc.write(prelude + txt, EXT[j0.lang])
+                inp, txt = with_pp[j0.inp], prelude + txt
             opts = {o: "remove"}
-            jobs.append(pipeline.Job("single-remove.%s.%d" % (o, r), sc.cfg(None, opts), j0.inp, j0.lang,
-                                     {"kind": "gen", "text": j0.meta["text"], "opts": opts}))
+            jobs.append(pipeline.Job("single-remove.%s.%d" % (o, r), sc.cfg(None, opts), inp, j0.lang, {"kind": "gen", "text": txt, "opts": opts}))
     pairs = [p for p in unc.test_pairs() if os.path.getsize(p[2]) < 40000]
     rng.shuffle(pairs)
     n = 0
